@@ -362,10 +362,35 @@ type c16EmbExp struct {
 
 var c16EmbDocs = []string{`{"name":"n","bname":"b","btags":["x","y"],"count":3}`, `{"bname":"only"}`, `{"count":7,"btags":[],"name":"n"}`, `{"name":"n"}`}
 
+// c16NullItems: sequences whose elements can be "nothing" (pointers, maps, lists, any) - and one of strings, which cannot.
+// A null item is an ELEMENT: it keeps its position, and the elements after it keep theirs. (Nulls stand only where the element
+// type has a "nothing": a null inside a list of strings or of structs is not well-typed input - yaml.v3 skips such an item,
+// this decoder yields the zero value; DESIGN.md names the deviation.)
+type c16NullItems struct {
+	Ptrs  []*c16Sub           `yaml:"ptrs"`
+	Maps  []map[string]string `yaml:"maps"`
+	Lists [][]string          `yaml:"lists"`
+	Anys  []any               `yaml:"anys"`
+	Strs  []string            `yaml:"strs"`
+	Subs  []c16Sub            `yaml:"subs"`
+}
+
+var c16NullDocs = []string{
+	`{"ptrs":[{"x":"a","y":1},null,{"x":"c","y":3}]}`, `{"ptrs":[null,{"x":"b","y":2}]}`, `{"ptrs":[{"x":"a"},null]}`, `{"ptrs":[null,null]}`,
+	`{"maps":[{"k":"v"},null,{"k2":"v2"}],"lists":[["a"],null,["b","c"],[]]}`, `{"maps":[null],"lists":[null],"anys":[null]}`,
+	`{"anys":[1,null,"x",null,{"a":null},[null]],"strs":["a","","c"]}`, `{"subs":[{"x":"a"},{"y":3}],"ptrs":[]}`,
+	"ptrs:\n  - {x: a, y: 1}\n  - ~\n  -\n  - {x: d, y: 4}\nlists:\n  - [a]\n  - ~\n  - [b]\n",
+}
+
 func c16EmbeddedEvent(k int) obj {
 	c := normalize(obj{"desc": []any{}, "doc": []any{}, "pre": false, "rot": k, "embedded": k})
 	ev := obj{"c": c, "kind": "embedded", "start": obj{"t": "z"}, "ordered": obj{"t": "z"}, "yamlv3": obj{"t": "z"}, "err": false, "yerr": false}
 	text := c16EmbDocs[k%len(c16EmbDocs)]
+	nullItems := k >= 2*len(c16EmbDocs)
+	if nullItems {
+		text = c16NullDocs[(k-2*len(c16EmbDocs))%len(c16NullDocs)]
+	}
+	ev["text"] = text
 	p, msg := guarded(func() {
 		var n yaml.Node
 		if err := yaml.Unmarshal([]byte(text), &n); err != nil {
@@ -376,7 +401,9 @@ func c16EmbeddedEvent(k int) obj {
 			panic("driver: " + err.Error())
 		}
 		var dst, ref reflect.Value
-		if (k/len(c16EmbDocs))%2 == 0 {
+		if nullItems {
+			dst, ref = reflect.ValueOf(&c16NullItems{}), reflect.ValueOf(&c16NullItems{})
+		} else if (k/len(c16EmbDocs))%2 == 0 {
 			dst, ref = reflect.ValueOf(&c16EmbUnexp{}), reflect.ValueOf(&c16EmbUnexp{})
 		} else {
 			dst, ref = reflect.ValueOf(&c16EmbExp{}), reflect.ValueOf(&c16EmbExp{})
@@ -432,7 +459,7 @@ func runC16(args []string) {
 		tw.emit(ev)
 	})
 	if fl.str("embedded", "") != "" {
-		for k := 0; k < 2*len(c16EmbDocs); k++ {
+		for k := 0; k < 2*len(c16EmbDocs)+len(c16NullDocs); k++ {
 			tw.emit(c16EmbeddedEvent(k))
 		}
 	}
